@@ -654,7 +654,7 @@ class Array(metaclass=MetaArray):
             arr = self._buffer.to_nplike(
                 self._offset + self._data_offset, self._itemtype._dtype, cshape
             ).transpose(np.argsort(order))
-            assert arr.strides == self._strides
+            assert arr.size == 0 or arr.strides == self._strides
             return arr
         else:
             raise NotImplementedError
@@ -667,7 +667,7 @@ class Array(metaclass=MetaArray):
             arr = self._buffer.to_nparray(
                 self._offset + self._data_offset, self._itemtype._dtype, cshape
             ).transpose(np.argsort(order))
-            assert arr.strides == self._strides
+            assert arr.size == 0 or arr.strides == self._strides
             return arr
         else:
             raise NotImplementedError
